@@ -178,16 +178,38 @@ impl Ranking {
             cx.count("stores of 66-260 records");
         }
         let ties = cx.rng.chance(1, 5);
-        let recs = crowded_recs(&mut cx.rng, lang, n, &corpus, !ties);
-        let limit = match cx.rng.below(6) {
+        let mut recs = crowded_recs(&mut cx.rng, lang, n, &corpus, !ties);
+        let mut limit = match cx.rng.below(6) {
             0 => 0,
             1 => cx.rng.range(1, 3),
             2 => n + cx.rng.below(3),
             _ => cx.rng.below(n + 3),
         };
+        // one case in twenty sits exactly on the edge of the completeness half: |store| == 10*limit, one word in every
+        // record but one, and that one sharing nothing with it but its first letter(s); queries are misspellings of the word
+        let mut edge_queries: Vec<String> = vec![];
+        if cx.rng.chance(1, 20) {
+            let alpha = gen::lower_alphabet(lang);
+            limit = cx.rng.range(1, 6);
+            let w = gen::rand_word(&mut cx.rng, &alpha, 4, 6);
+            let wc = cv(&w);
+            recs = (0..10 * limit - 1).map(|i| (2000 + i, format!("{} {}", w, gen::rand_word(&mut cx.rng, &alpha, 2, 5)), 3 * i + 1)).collect();
+            let keep = cx.rng.range(1, 2);
+            recs.push((1999, format!("{}{} {}", s(&wc[..keep]), gen::rand_word(&mut cx.rng, &alpha, 2, 3), gen::rand_word(&mut cx.rng, &alpha, 3, 5)), 2));
+            let mut t = wc[..3].to_vec();
+            t.swap(1, 2);
+            edge_queries.push(s(&t));
+            let mut t2 = wc.clone();
+            t2.swap(1, 2);
+            edge_queries.push(s(&t2));
+            edge_queries.push(s(&wc[..2]));
+            cx.count("stores of exactly 10*limit records sharing one word");
+        }
+        let n = recs.len();
         let unl = St::build_sentinel(lang, &recs, n + 1);
-        for _ in 0..3 {
+        for qk in 0..3 {
             let q = rank_query(&mut cx.rng, lang, &unl.store.lang, &recs);
+            let q = edge_queries.get(qk).cloned().unwrap_or(q);
             cx.ctx(format!("C06 lang={} recs={:?} limit={} q={:?}", lang, recs, limit, q));
             // a freshly built store per configuration; one in four is built in stages instead: some records, an empty-query
             // and a word search under another limit, a limit change, the remaining records, the final limit
@@ -974,7 +996,7 @@ impl Prop for Ranking {
     }
     fn floors(&self) -> Vec<(&'static str, u64, u64)> {
         match self.0 {
-            Which::Verdicts => vec![("truncated (more matches than limit)", 200, 2000), ("beyond the 10x cap (soundness only)", 100, 1000), ("limit 0", 50, 500), ("selection buffer refilled (matches >= 2*limit)", 100, 1000), ("store with tied ratings (set comparison)", 50, 500), ("empty query", 50, 500), ("corpus-store searches", 100, 2000), ("corpus-store searches compared with the unlimited corpus store", 10, 200), ("large stores (limit 50-200)", 400, 8000), ("large stores whose match count is an exact multiple of the limit", 20, 400), ("stores of more than 2048 records", 8, 160), ("stores of 66-260 records", 300, 3000), ("stores built in stages with searches and limit changes in between", 3000, 30000), ("configurations whose reference stores live on threads of their own", 1500, 15000), ("stores of 33 000 - 140 000 records with one title", 8, 48)],
+            Which::Verdicts => vec![("truncated (more matches than limit)", 200, 2000), ("beyond the 10x cap (soundness only)", 100, 1000), ("limit 0", 50, 500), ("selection buffer refilled (matches >= 2*limit)", 100, 1000), ("store with tied ratings (set comparison)", 50, 500), ("empty query", 50, 500), ("corpus-store searches", 100, 2000), ("corpus-store searches compared with the unlimited corpus store", 10, 200), ("large stores (limit 50-200)", 400, 8000), ("large stores whose match count is an exact multiple of the limit", 20, 400), ("stores of more than 2048 records", 8, 160), ("stores of 66-260 records", 300, 3000), ("stores built in stages with searches and limit changes in between", 3000, 30000), ("configurations whose reference stores live on threads of their own", 1500, 15000), ("stores of 33 000 - 140 000 records with one title", 8, 48), ("stores of exactly 10*limit records sharing one word", 100, 1000)],
             Which::Order => vec![("pair stores", 2000, 20000), ("permuted stores", 2000, 20000), ("searches with >= 2 hits", 300, 3000), ("truncated lists compared across permutations", 30, 300), ("stores of similar words", 500, 5000), ("pairs involving a hit ranked 7th or lower", 300, 3000), ("large stores (limit 50-200)", 200, 4000), ("stores of more than 2048 records", 4, 80), ("stores with ratings in [2^31, 2^32)", 200, 2000), ("stores with ratings spread over the whole usize range", 100, 1000), ("configurations whose reference stores live on threads of their own", 200, 2000), ("stores built in stages with searches and limit changes in between", 300, 3000), ("stores shadowed by a store of another language on the same thread", 500, 5000)],
             Which::Rules => vec![("rule exact>typo", 500, 5000), ("rule both>one", 500, 5000), ("rule prefix: exact>tail", 500, 5000), ("rule adjacent>gap", 500, 5000), ("rule first>second", 500, 5000), ("rule identical titles: rating decides", 300, 3000), ("rule equal rating: shorter title first", 300, 3000), ("rule function word: content word first", 1000, 10000), ("u made of two function words run together", 300, 3000), ("rule cases with a third, unrelated record", 20000, 200000), ("identical titles with ratings 1-3 apart", 1000, 10000), ("tails of 13-70 letters", 500, 5000), ("u tagged with a part of speech that is not a function-word kind", 150, 1500)],
             Which::Empty => vec![("searches after further adds", 1000, 10000), ("truncated lists with tied ratings", 500, 5000), ("stores with distinct ratings", 500, 5000), ("limit 0", 100, 1000), ("stores of 13-60 records", 1000, 10000), ("stores whose titles share a prefix of 20-40 characters", 1500, 15000), ("stores with adjacent ratings above 2^24", 1000, 10000), ("searches after a limit change", 1000, 10000), ("adds under a temporarily lowered limit", 1000, 10000), ("empty-query searches right after a search with words", 5000, 50000)],
